@@ -12,6 +12,10 @@ Local Open Scope Z_scope.
 Lemma memfs_refuses_below_file_fact : memfs_refuses_below_file = 1.
 Proof. reflexivity. Qed.
 
+(* Rename of a missing source resolves both directories first.  Compiles iff Gen/Consts.v says so. *)
+Lemma memfs_rename_missing_source_enotdir_fact : memfs_rename_missing_source_enotdir = 1.
+Proof. reflexivity. Qed.
+
 Lemma below_file_off s name : memfs_refuses_below_file <> 1 -> below_file s name = false.
 Proof. intros H. unfold below_file. apply Z.eqb_neq in H. now rewrite H. Qed.
 
